@@ -15,12 +15,13 @@ import itertools
 
 from sexp import Sym
 
+from props import _c26x
 from props._slicing_util import compositions, random_chunks, unsym
 
 PROP = "C26"
 READY = True
 DRIVER = "dm_slicing"
-LEAN_MODULES = ["DaskModel.Props.C26"]
+LEAN_MODULES = ["DaskModel.Props.C26", "DaskModel.Props.C26xNd"]
 CASE_TIMEOUT_S = 40
 LEVEL_TEXT = (
     "Lean 4 theorems (any chunk list, asymmetric depth, no size bound) over transliterations of "
@@ -39,9 +40,18 @@ LEVEL_TEXT = (
     "(sliding_window_view_eq_global, guard shown necessary); ensure_minimum_chunksize keeps the total, makes every "
     "chunk >= size and raises only when the axis is shorter than size; with several array arguments the trim follows "
     "the depth/boundary of the FIRST argument of highest rank (trim_follows_first_highest_rank, diffed at function "
-    "level through the declared and computed extents). Validated, not proved: that boundaries() / "
-    "np.pad compute these index maps (diffed cell by cell), the N-d product (axes padded one after the other), "
-    "rechunking (C23), map_overlap's argument handling (several arrays, drop_axis/new_axis, trim=False)."
+    "level through the declared and computed extents). N-d (extension round, Props/C26xNd): with n-d arrays as "
+    "functions from index lists and blocks as separable gathers X[np.ix_(L1..Lk)] whose per-axis source lists are the "
+    "1-d models, for every number of axes, per-axis asymmetric depths and a boundary kind per axis (chunks >= depth): "
+    "the 1-d extended block b IS the slice [lo - d-, hi + d+) of the (padded) axis (overlap_1d_block, "
+    "overlap_1d_block_boundary); the extended block (b1..bk) holds exactly the hyper-rectangle of the padded global "
+    "array, corners included (overlap_nd_block, overlap_nd_block_content); _trim of it is the original block "
+    "(trim_overlap_nd_id); for every function local within the per-axis depths (any g of the clipped window), mapping over "
+    "the extended block and trimming gives cell by cell the function on the padded global array at the block's own "
+    "cells pad + lo + c (map_overlap_nd_eq_global, globalIdx_is_block_offset). Validated, not proved: that boundaries() / "
+    "np.pad compute these index maps (diffed cell by cell), that ArrayOverlapLayer's 3^k-neighbour gather + "
+    "concatenate_shaped is the per-axis product (every block of 2-d / 3-d position-valued arrays diffed, section "
+    "ndblocks), rechunking (C23), map_overlap's argument handling (several arrays, drop_axis/new_axis, trim=False)."
 )
 LEVEL_NOTE = (
     "Trusted: Lean kernel; the hand-written model ArrOverlap (diffed on every run against the real helpers and against "
@@ -772,6 +782,7 @@ def case_swv(ctx, inp):
 
 CASES = {"trimarg": case_trimarg, "mapovn": case_mapovn, "ovb": case_ovb, "swvblocks": case_swvblocks, "mapov3": case_mapov3, "mapov2": case_mapov2, "chunks": case_chunks, "emc": case_emc, "blocks": case_blocks, "bnd": case_bnd, "trimid": case_trimid,
          "mapov": case_mapov, "swv": case_swv}
+CASES.update(_c26x.CASES)      # extension round: ndblocks, ndmapov (N-d product of the 1-d index maps)
 
 
 # --------------------------------------------------------------------------------------
@@ -989,3 +1000,4 @@ def generate(ctx):
             axis = [rng.randrange(nd) for _ in range(m)]
             window = [rng.randint(1, max(1, sum(chunks[a]) // (1 + axis.count(a) // 2))) for a in axis]
         yield "swv", {"chunks": chunks, "window": window, "axis": axis, "scalar": rng.random() < 0.5, "auto": rng.random() < 0.7}
+    yield from _c26x.generate(ctx)
